@@ -1,4 +1,5 @@
 use crate::error::Converter;
+use crate::xml;
 use crate::Error;
 use crate::RecordDataType;
 use crate::RecordValue;
@@ -10,7 +11,7 @@ fn extract_limit(bounds: &Node, tag_name: &str) -> Result<Option<RecordValue>> {
         let type_str = tag
             .attribute("type")
             .invalid_err(format!("Cannot find type attribute of limit '{tag_name}'"))?;
-        let value_str = tag.text().unwrap_or("0");
+        let value_str = xml::text(&tag).unwrap_or_else(|| String::from("0"));
         Ok(match type_str {
             "Integer" => Some(RecordValue::Integer(
                 value_str
